@@ -201,8 +201,8 @@ func TestVerif(t *testing.T) {
 		maxLen = 6
 	}
 	maxLen = vrep.EnvInt("VERIF_C17_LEN", maxLen)
-	labelCur := []string{"", "a", "a/b", "."}
-	patCur := []string{"", "a", "a/b"}
+	labelCur := []string{"", "a", "a/b", ".", ".a", "a/.b"} // packages whose path starts with a dot: relative labels keep it
+	patCur := []string{"", "a", "a/b", ".a"}
 
 	var evals, trans int64
 	var strs int64
@@ -325,6 +325,23 @@ func TestVerif(t *testing.T) {
 		check(rp.s)
 	} else {
 		rec()
+		if maxLen < 7 {
+			// every string of exactly 6 and 7 tokens that is a path of three components, with every suffix
+			// form (the shorthand //x/y/z, explicit names, wildcards): deeper than the token bound reaches
+			words := []string{"a", "b", "ab", "all"}
+			for _, w1 := range words {
+				for _, w2 := range words {
+					for _, w3 := range words {
+						path := "//" + w1 + "/" + w2 + "/" + w3
+						for _, suffix := range []string{"", ":" + w3, ":a", ":all", ":...", "/...", "/...:a"} {
+							if strings.Count(path+suffix, "/")+strings.Count(suffix, ":") >= 0 {
+								check(path + suffix)
+							}
+						}
+					}
+				}
+			}
+		}
 	}
 	_ = sort.Strings
 	vrep.Counts(evals, strs, trans, evals)
